@@ -31,20 +31,55 @@ def accumulations(f):
     return out
 
 
+def body_lets(f):
+    """{name: initialiser node} of the locals declared directly in the loop body (const double w = ...; struct copies)"""
+    b = f['inner'][-1]
+    items = b.get('inner', []) if b.get('kind') == 'CompoundStmt' else [b]
+    out = {}
+    for st in items:
+        if st.get('kind') == 'DeclStmt':
+            for d in st.get('inner', []):
+                if d.get('kind') == 'VarDecl' and 'init' in d:
+                    init = [c for c in d.get('inner', []) if c.get('kind') not in ('FullComment',)]
+                    if init:
+                        out[d['name']] = init[-1]
+    return out
+
+
 def partial_sum_reads(f):
-    """[(scalar, line of the read)] - scalars accumulated in this loop and read by another statement of it."""
+    """[(scalar, line of the read)] - scalars accumulated in this loop and read by another statement of it, directly or through
+    a local of the loop body that was computed from them."""
     acc = {}
     for lv, op, rhs, line in accumulations(f):
         if re.match(r'^[A-Za-z_]\w*$', lv):
             acc.setdefault(lv, line)
+    lets = body_lets(f)
+    via = {}          # body local -> accumulated scalar it was computed from
+    changed = True
+    while changed:
+        changed = False
+        for nm, init in lets.items():
+            if nm in via:
+                continue
+            for e in walk(init):
+                if e.get('kind') == 'DeclRefExpr':
+                    r_ = e['referencedDecl'].get('name')
+                    if r_ in acc or r_ in via:
+                        via[nm] = acc and (r_ if r_ in acc else via[r_])
+                        changed = True
+                        break
     out = []
     for s in body_statements(f):
         if not is_assign(s):
             continue
         lv = render(s['inner'][0])
         for e in walk(s['inner'][1]):
-            if e.get('kind') == 'DeclRefExpr' and e['referencedDecl'].get('name') in acc and e['referencedDecl']['name'] != lv:
-                out.append((e['referencedDecl']['name'], line_of(s)))
+            if e.get('kind') == 'DeclRefExpr':
+                r_ = e['referencedDecl'].get('name')
+                if r_ in acc and r_ != lv:
+                    out.append((r_, line_of(s)))
+                elif r_ in via and via[r_] != lv:
+                    out.append((via[r_], line_of(s)))
     return out
 
 
@@ -55,7 +90,18 @@ def to_expr(t, leaf):
     if k == 'lit':
         return sp.nsimplify(t[1], rational=True)
     if k in ('id', 'mem', 'idx'):
-        return leaf(render(t).replace(' ', ''))
+        txt = render(t).replace(' ', '')
+        lets = getattr(leaf, 'lets', None)
+        if lets:
+            if k == 'id' and txt in lets:
+                return to_expr(toks(lets[txt]), leaf)
+            m = re.match(r'^([A-Za-z_]\w*)\.(\w+)$', txt)
+            if k == 'mem' and m and m.group(1) in lets:
+                base = render(strip(lets[m.group(1)], casts=True)).replace(' ', '')
+                while base.startswith('(') and base.endswith(')'):
+                    base = base[1:-1]
+                return leaf('%s.%s' % (base, m.group(2)))
+        return leaf(txt)
     if k == 'bin':
         a, b = to_expr(t[2], leaf), to_expr(t[3], leaf)
         return {'+': lambda: a + b, '-': lambda: a - b, '*': lambda: a * b, '/': lambda: a / b}[t[1]]()
@@ -71,6 +117,12 @@ def summand(f, target, leaf):
     import sympy as sp
     tot = sp.Integer(0)
     k = 0
+    try:
+        lets = dict(getattr(leaf, 'outer_lets', {}) or {})
+        lets.update(body_lets(f))
+        leaf.lets = lets
+    except AttributeError:
+        pass
     for lv, op, rhs, line in accumulations(f):
         if lv.replace(' ', '') != target:
             continue
@@ -78,3 +130,16 @@ def summand(f, target, leaf):
         tot += e if op == '+=' else -e
         k += 1
     return tot, k
+
+
+def function_lets(fn):
+    """{name: initialiser node} of the scalar locals of a function that are never assigned again (names for a value)"""
+    mutated = {render(e['inner'][0]) for e in walk(cfront.body(fn)) if is_assign(e)}
+    mutated |= {render(x['inner'][0]) for x in walk(cfront.body(fn)) if x.get('kind') == 'UnaryOperator' and x.get('opcode') in ('++', '--')}
+    out = {}
+    for d in walk(cfront.body(fn)):
+        if d.get('kind') == 'VarDecl' and 'init' in d and d.get('name') not in mutated and 'double' in qtype(d) and '*' not in qtype(d):
+            init = [c for c in d.get('inner', []) if c.get('kind') not in ('FullComment',)]
+            if init:
+                out.setdefault(d['name'], init[-1])
+    return out
